@@ -66,8 +66,16 @@ int  vx_ncpu(void);
 // any epoll instance, or -1 if the fd is not registered.
 int  vx_epoll_armed(int fd);
 
-// I/O-point mode (C14): counters of wrapped I/O syscalls
-typedef struct vx_iostat { uint64_t reads, writes, bytes_read, bytes_written; } vx_iostat;
+// I/O-point mode (C14)
+void vx_io_watch(int fd);             // read/write/pread/pwrite of the library on fd become I/O points
+void vx_set_io_only(int on, int faults); // branch only at I/O points; `faults` injected answers per execution
+void vx_wait_idle(void);              // environment thread: runs when nothing else can (or, as a deviation, right before an I/O point)
+const unsigned char *vx_io_consumed(int fd, size_t *n);  // bytes the library's reads returned from fd, in order
+const unsigned char *vx_io_written(int fd, size_t *n);   // bytes the library's writes put into fd, in order
+#include <sys/types.h>
+ssize_t vx_real_read(int fd, void *b, size_t n);   // un-instrumented I/O for the harness's own peer
+ssize_t vx_real_write(int fd, const void *b, size_t n);
+int vx_real_close(int fd);
 
 // ---- harness registration ---------------------------------------------------
 typedef struct vx_harness {
